@@ -330,7 +330,8 @@ func (g *Gen) Fill(m protoreflect.Message, depth int) {
 			}
 			// entries whose encoded length straddles the one-/two-byte length prefix (127 / 128):
 			// string keys of 110..126 bytes with values of mixed widths
-			boundary := fd.MapKey().Kind() == protoreflect.StringKind && fd.MapValue().Message() == nil && (g.R.Intn(100) < 8 || (force && g.R.Intn(2) == 0))
+			// (not in the recorders that log the state after every write: LongLists = 0 there)
+			boundary := g.LongLists > 0 && fd.MapKey().Kind() == protoreflect.StringKind && fd.MapValue().Message() == nil && (g.R.Intn(100) < 8 || (force && g.R.Intn(2) == 0))
 			if boundary {
 				nn = 3 + g.R.Intn(3)
 			}
